@@ -16,6 +16,8 @@ from symcheck.runner import Shard, run_shards
 VERIF = os.path.dirname(os.path.dirname(os.path.abspath(__file__)))
 
 HARNESS_MODULES = {
+    'C03': ['framing:shards_c03'],
+    'C04': ['framing:shards_c04'],
     'C11': ['c11_prims'],
     'C12': ['c12_vectors'],
     'C17': ['c17_version'],
@@ -31,8 +33,9 @@ def _log(*items):
 def load_shards(prop, tier, seed, only=None):
     shards = []
     for name in HARNESS_MODULES[prop]:
+        name, _, func = name.partition(':')
         module = importlib.import_module('symcheck.harness.' + name)
-        shards.extend(module.shards(tier, seed))
+        shards.extend(getattr(module, func or 'shards')(tier, seed))
     if only:
         shards = [s for s in shards if any(o in s.label for o in only)]
     labels = [s.label for s in shards]
@@ -68,6 +71,8 @@ def check_property(prop, tier, seed, only=None):  # pylint: disable=too-many-loc
     start = time.time()
     from symcheck import chx  # pylint: disable=import-outside-toplevel
     lemma_rows = chx.enable_truediv([1, 2, 4])
+    from symcheck.harness import registry  # pylint: disable=import-outside-toplevel
+    registry.import_all()   # before forking: importing under the CrossHair tracer is very slow
     known = findings.load(prop)
     shards = load_shards(prop, tier, seed, only)
     by_label = {s.label: s for s in shards}
